@@ -461,7 +461,7 @@ def session_history(rng, net, mtu, length, p_mut=0.15, p_noise=0.05, p_misc=0.1,
         elif k < 0.74:
             fr = f_query(rng, net, cur, bridged=rng.random() < 0.2)
         elif k < 0.88:
-            fr = f_qlt(rng, net, cur, bridged=rng.random() < 0.2, tos=rng.choice([0, 0, 0, 1]))
+            fr = f_qlt(rng, net, cur, bridged=rng.random() < 0.2, tos=rng.choice([0, 0, 0, 1]), seq=0 if rng.random() < 0.05 else None)
         elif allow_reset:
             fr = f_reset(rng, net, m=cur if rng.random() < 0.8 else None, tos=rng.choice([0, 0, 1]),
                          bcast=rng.random() < 0.7)
